@@ -343,6 +343,7 @@ func effCanon(sp *spec.Spec, t *spec.Type, depth int) string {
 			}
 			parts = append(parts, a.Name+":"+req+":"+effCanon(sp, a.T, depth+1))
 		}
+		sort.Strings(parts) // a JSON object schema does not order its properties
 		out += "(" + strings.Join(parts, ",") + ")"
 	}
 	return out
